@@ -304,11 +304,30 @@ def run_buffer_geometry(rep, facts):
     rep.floor("R2.7", "geometry postconditions", n, 4)
 
 
+def run_async_delivery(rep, facts):
+    """R2.8: what the parser delivered into a caller's buffer must also be *reported* to the caller: in the async read interfaces nothing that can
+    return Pending / Err may run between a productive parse and returning its count, and every transport byte count is committed (rules of C09)."""
+    if not facts.has_feature("async"):
+        return
+    from . import c09
+    rep.rule("R2.8", "bytes the stream parser delivered reach the reader exactly once through the async interfaces: no early exit between a productive parse and "
+                     "returning its count (R9.3), transport counts committed before return (R9.7)")
+    sr = check.Report("tmp", "quick")
+    c09.run(sr, facts)
+    n = 0
+    for i in sr.instances:
+        if i["rule"] in ("R9.3", "R9.7"):
+            n += 1
+            (rep.ok if i["status"] == "ok" else rep.violation)("R2.8", i["instance"], i["detail"], i["loc"])
+    rep.floor("R2.8", "async delivery rules", n, 4)
+
+
 def main(rep, tier):
     f = F.load(("async", "http"))
     rep.configs.append({"features": "async,http", "profile": "debug", "bodies": len(f.bodies)})
     check.guard(rep, "R2", run, f)
     check.guard(rep, "R2.7", run_buffer_geometry, f)
+    check.guard(rep, "R2.8", run_async_delivery, f)
     rep.floor("R2", "rule instances", len([i for i in rep.instances if i["status"] == "ok"]), 10)
     return rep.finish(
         "Necessary structural conditions of exact delivery: where the delivering state is entered and left, that bytes move only in that "
